@@ -43,7 +43,7 @@ void gbuf_free(mp_ptr p);
 /* check mpz format rules (no leading zero limb, |size| <= alloc, alloc >= 1) */
 int z_wf(mpz_srcptr z);
 
-extern const op_t ops_basic[], ops_mul[], ops_div[], ops_bit[], ops_alias[], ops_conv[], ops_q[], ops_hist[], ops_radix[], ops_gcd[], ops_pow[], ops_root[], ops_f[], ops_comb[], ops_io[], ops_printf[], ops_rand[];
+extern const op_t ops_basic[], ops_mul[], ops_div[], ops_bit[], ops_alias[], ops_conv[], ops_q[], ops_hist[], ops_radix[], ops_gcd[], ops_pow[], ops_root[], ops_f[], ops_comb[], ops_io[], ops_printf[], ops_printf2[], ops_rand[];
 void out_bytes(const unsigned char *p, size_t n);
 double bits_to_double(unsigned long b);
 unsigned long double_to_bits(double d);
